@@ -766,7 +766,10 @@ def main(argv=None):
     # round 5: container kinds, data dict TYPES, numeric extremes, faults (harness/c19_edge.py); every call's plain reading
     # goes through `process`, the typed frame / identity / fault clauses are judged there
     from . import c19_edge
-    c19_edge.run(ck, sys.modules[__name__], process, runner.env)
+    try:
+        c19_edge.run(ck, sys.modules[__name__], process, runner.env)
+    except Exception as ex:  # noqa: BLE001 - the failing inputs found so far must not be lost to a dead harness
+        ck.disagreement("edge", f"the edge streams could not be completed ({type(ex).__name__}: {str(ex)[:200]})", {})
     cases = done
     if have_driver:
         model = common.run_driver("C19", wires)
